@@ -181,6 +181,14 @@ def check_read_result(W, name, out, K: Key, X, x):
 # reads
 
 
+def displaced_patterns(kinds):
+    out = []
+    for pat in patterns(4, "NI" + kinds):
+        if sum(pat.count(c) for c in kinds) == 1 and "I" in pat and "N" in pat:
+            out.append(pat)
+    return out
+
+
 def sk_reads(tier):
     out = []
     R = _rank(tier, 3, 4)
@@ -201,6 +209,11 @@ def sk_reads(tier):
         for pat in patterns(5, "NIS"):
             if pat.count("S") <= 2 and pat.count("I") <= 2 and pat.count("N") <= 2:
                 out.append({"x": ALPHA[:5], "pat": pat, "form": "dict_letter"})
+    else:
+        # rank 4, one subset selector among single items and untouched dimensions: the smallest shape in
+        # which numpy moves the advanced-index axes relative to an untouched dimension on both sides
+        for pat in displaced_patterns("S"):
+            out.append({"x": ALPHA[:4], "pat": pat, "form": "dict_letter"})
     return out
 
 
@@ -327,6 +340,11 @@ def sk_writes(tier):
                     if tier == "quick" and k == 3 and rhs in ("array_perm_extra",) and pat.count("N") == 3:
                         continue
                     out.append({"x": ALPHA[:k], "pat": pat, "form": f, "rhs": rhs})
+    if tier == "quick":
+        for pat in displaced_patterns("SL"):
+            out.append({"x": ALPHA[:4], "pat": pat, "form": "dict_letter", "rhs": "number"})
+            if "L" not in pat:
+                out.append({"x": ALPHA[:4], "pat": pat, "form": "dict_letter", "rhs": "array"})
     return out
 
 
